@@ -353,6 +353,16 @@ class EGraph:
                     out.append(k)
         return out
 
+    def _local_iter_next(self, ty):
+        """key of the crate's `impl Iterator for <type>`::next when `ty` is that type or an adaptor stack around it (`Take<Enumerate<X>>`)"""
+        names = re.findall(r"([A-Za-z_][\w:]*)<", ty) + [re.sub(r"<.*$", "", ty)]
+        for nm in names:
+            for k, b in self.prog.bodies.items():
+                if b.get("impl_trait") == "std::iter::Iterator" and k.endswith("::next") and re.sub(r"<.*$", "", b.get("impl_self") or "") == nm \
+                        and not k.startswith(("testing::", "<testing::")):
+                    return k
+        return None
+
     def _shim_body(self, g, where):
         m = re.match(r"^(?:for<[^>]*> )?(?:unsafe )?fn\((.*)\)(?: -> (.*))? \{", g.get("s", ""))
         if not m:
@@ -462,6 +472,15 @@ class EGraph:
                 else:
                     # event; closures handed to it may be called 0..n times at this point
                     cks = self._closure_keys(c, (t.get("file") or body.get("file"), t.get("line") or body.get("line"))) if (c and self.inline_closures) else []
+                    # a crate-local iterator driven by a std adaptor / consumer (`records_iter.find_map(..)`, `.collect()`): std calls the
+                    # crate's own `next` once per element - attach it like a callback so that what it does is part of this graph
+                    if c and self.inline_closures and c.get("trait") == "std::iter::Iterator" and not c["path"].endswith("::next"):
+                        g0 = (c.get("rgargs") or c.get("gargs") or [{}])[0]
+                        conc = inst.type_map.get(g0.get("param")) if g0.get("param") else g0.get("s")
+                        if conc:
+                            nk = self._local_iter_next(conc)
+                            if nk and nk not in cks and not self.no_inline(nk):
+                                cks = [nk] + list(cks)
                     is_spawn = bool(c and re.search(r"thread::(Builder::spawn|spawn)", c["path"]))
                     if tgt is not None:
                         self._edge(n, (inst.id, tgt))
